@@ -164,7 +164,10 @@ func trimAll(vs []string) []string {
 
 func (p *prop) judgeServer(k *kase, sel string, wb bool, bypass string, o *core.Outcome) {
 	expected := expectedBody(k.ops)
-	if !e2eEligible(k, expected) {
+	// a handler that edits headers or calls WriteHeader after committing the response is served
+	// differently by net/http with and without ANY header-deferring middleware; the recorder path
+	// above still judges those scripts
+	if !wb || !e2eEligible(k, expected) {
 		return
 	}
 	fail := func(class, format string, a ...any) {
